@@ -115,6 +115,7 @@ type conn struct {
 	stalled     bool
 	closed      bool
 	handshaken  bool
+	sentVersion bool
 	afterOffend int // getheaders received after an offending reply was sent
 	offended    bool
 }
@@ -248,18 +249,11 @@ func (n *Node) serve(cn *conn) {
 		switch m := msg.(type) {
 		case *wire.MsgVersion:
 			n.log(rec)
-			services := wire.ServiceFlag(n.Spec.Services)
-			if services == 0 {
-				services = wire.SFNodeNetwork
-			}
-			me := wire.NewNetAddressIPPort(net.IPv4(127, 0, 0, 1), 0, services)
-			v := wire.NewMsgVersion(me, me, uint64(time.Now().UnixNano())^uint64(n.ID)<<48|uint64(cn.id), n.Height())
-			v.ProtocolVersion = int32(n.Spec.Pver)
-			v.Services = services
-			v.UserAgent = "/simnet:1.0/"
-			if err := n.write(cn, v); err != nil {
-				n.closeConn(cn, false)
-				return
+			if !cn.sentVersion {
+				if err := n.sendVersion(cn); err != nil {
+					n.closeConn(cn, false)
+					return
+				}
 			}
 			_ = n.write(cn, wire.NewMsgVerAck())
 			_ = m
@@ -289,6 +283,35 @@ func (n *Node) serve(cn *conn) {
 			n.log(rec)
 		}
 	}
+}
+
+func (n *Node) sendVersion(cn *conn) error {
+	services := wire.ServiceFlag(n.Spec.Services)
+	if services == 0 {
+		services = wire.SFNodeNetwork
+	}
+	me := wire.NewNetAddressIPPort(net.IPv4(127, 0, 0, 1), 0, services)
+	v := wire.NewMsgVersion(me, me, uint64(time.Now().UnixNano())^uint64(n.ID)<<48|uint64(cn.id), n.Height())
+	v.ProtocolVersion = int32(n.Spec.Pver)
+	v.Services = services
+	v.UserAgent = "/simnet:1.0/"
+	cn.sentVersion = true
+	return n.write(cn, v)
+}
+
+// ServeConn lets the node speak on a connection created elsewhere; with versionFirst the node opens the
+// handshake (it is the connecting side of an inbound peer of the legacy engine).
+func (n *Node) ServeConn(c net.Conn, versionFirst bool) {
+	n.mu.Lock()
+	n.live++
+	n.accepted++
+	cn := &conn{id: len(n.conns), c: c}
+	n.conns = append(n.conns, cn)
+	n.mu.Unlock()
+	if versionFirst {
+		_ = n.sendVersion(cn)
+	}
+	go n.serve(cn)
 }
 
 func (n *Node) log(r Recv) {
